@@ -200,7 +200,8 @@ func TestCheck(t *testing.T) {
 		"runloop_fault_runs_top-level_panic", "runloop_fault_runs_depth_2", "runloop_fault_runs_in_chain", "runloop_fault_runs_in_workflow",
 		"runloop_graph_units_judged_panic_faulting-graph/nested", "runloop_graph_units_judged_panic_faulting-graph/top-level",
 		"selffire_failing_unit_pairs_panic_bundled-ChatTemplate", "selffire_failing_unit_pairs_error_bundled-ChatTemplate",
-		"selffire_pairs_component-fires-itself/ChatTemplate", "selffire_pairs_component-fires-itself/Retriever", "selffire_runs_judged_none"} {
+		"selffire_pairs_component-fires-itself/ChatTemplate", "selffire_pairs_component-fires-itself/Retriever", "selffire_runs_judged_none",
+		"rerun_sequences_finished", "rerun_calls_interrupted_by_rerun_request", "rerun_error_callbacks_matched"} {
 		rep.Require(k, 20)
 	}
 	ctx := context.Background()
@@ -218,6 +219,13 @@ func TestCheck(t *testing.T) {
 			sharedExecutorCase(ctx, rep, rng.Sub("shared"))
 			for k := 0; k < cfg.Pick(2, 4); k++ {
 				toolsCase(ctx, rep, rng.Sub(fmt.Sprintf("tools%d", k)))
+			}
+			// interrupt / resume sequences (rerun_pairing_test.go); last, so that the cases above keep their PRNG
+			// streams. Checkpoints are serialized at every interrupt, which is slow under the race detector: the
+			// quick tier runs one spec (two sequences) in every second of these cases.
+			nrr := cfg.Pick(int(idx/6+1)%2, 3)
+			for k := 0; k < nrr; k++ {
+				rerunPairingCase(ctx, rep, rng.Sub(fmt.Sprintf("rerun%d", k)), idx < 6 && k == 0)
 			}
 			return
 		}
